@@ -11,6 +11,7 @@ From LE Require Import Base Locks.
 Open Scope string_scope.
 
 Inductive lidv := LOwn | LEmpty | LAny.
+Inductive tokv := KParam | KEmpty | KAny.
 
 Record sgroup := mkSG {
   sg_fn : string; sg_pos : string;
@@ -20,6 +21,7 @@ Record sgroup := mkSG {
   sg_il : list bool;           (* values stored to isLeader (at most one expected) *)
   sg_st : list string;         (* values stored to state *)
   sg_lid : list lidv;          (* values stored to leaderID *)
+  sg_tok : list tokv;          (* values stored to token: a parameter of the function, "", anything else *)
   sg_unknown : bool            (* a store whose argument the translator could not classify *)
 }.
 
@@ -48,6 +50,14 @@ Definition group_ok (g : sgroup) : bool :=
   | [], [LOwn] => true
   | [], [_] => sg_guard g
   | _, _ => false
+  end &&
+  (* the token: a promotion stores the token it was called with; nothing else stores one, except the constructor *)
+  match sg_il g, sg_tok g with
+  | [true], [KParam] => true
+  | [true], _ => false
+  | _, [] => true
+  | [false], [_] => sg_ctor g
+  | _, _ => false
   end.
 
 Definition loads_ok (l : list (string * string * option lmode)) : bool :=
@@ -55,13 +65,19 @@ Definition loads_ok (l : list (string * string * option lmode)) : bool :=
   forallb (fun f => existsb (fun x => String.eqb (fst (fst x)) f) l) ["isLeader"; "state"; "leaderID"].
 
 (* abstract status of one election object *)
-Record sstate := mkSS { ss_il : bool; ss_st : string; ss_own : bool (* leaderID holds the instance's own id *) }.
+Record sstate := mkSS { ss_il : bool; ss_st : string; ss_own : bool (* leaderID holds the instance's own id *);
+                        ss_tok : bool (* token holds the token the running term was promoted with *) }.
 
 Definition last_or {A} (l : list A) (d : A) : A := match l with [] => d | x :: _ => last l x end.
 
 Definition sstep (s : sstate) (g : sgroup) : sstate :=
   mkSS (last_or (sg_il g) (ss_il s)) (last_or (sg_st g) (ss_st s))
-       (match sg_lid g with [] => ss_own s | l => match last l LAny with LOwn => true | _ => false end end).
+       (match sg_lid g with [] => ss_own s | l => match last l LAny with LOwn => true | _ => false end end)
+       (match sg_il g, sg_tok g with
+        | [true], [KParam] => true            (* a promotion with its token: the term's token *)
+        | _, [] => match sg_il g with [true] => false | _ => ss_tok s end   (* a promotion without token store would leave the old one *)
+        | _, _ => false                       (* any other store replaces it *)
+        end).
 
 (* a group behind the not-leader guard runs only when the instance does not lead: the test and the stores are in one
    exclusive section, and every store to isLeader is in an exclusive section too (checked: [exclusive]) *)
@@ -74,4 +90,4 @@ Fixpoint senabled (s : sstate) (gs : list sgroup) : Prop :=
   match gs with [] => True | g :: r => enabled s g /\ senabled (sstep s g) r end.
 
 Definition SInv (s : sstate) : Prop :=
-  (ss_il s = is_leader_state (ss_st s)) /\ (ss_il s = true -> ss_own s = true) /\ documented_state (ss_st s) = true.
+  (ss_il s = is_leader_state (ss_st s)) /\ (ss_il s = true -> ss_own s = true /\ ss_tok s = true) /\ documented_state (ss_st s) = true.
